@@ -250,12 +250,6 @@ theorem C20_win_pmem_layout :
 
 /-! ## 3. Documented API -/
 
-def documentedOf (p : Platform) : List String := (Gen.C20.documented.lookup p.key).getD []
-def exposedOf (p : Platform) : List String := (Gen.C20.exposed.lookup p.key).getD []
-
-theorem api_subset_check : ∀ p ∈ Platform.all, subsetSorted (documentedOf p) (exposedOf p) = true := by
-  decide +kernel
-
 /-- **C20_api_names.** Every function, class, constant and Process method that docs/index.rst
     promises for a platform (its `Availability:` lines and per-constant platform notes) is
     exposed by the package when imported as that platform: listed in `__all__` and present as
